@@ -296,12 +296,16 @@ def exact(op, vx, vy):
 
 
 def classify(op, x, y, E, f):
-    """failure class of an addition-like operation (for the violation signature)"""
+    """failure class of an addition-like operation (for the violation signature); 'domain' = a NONZERO operand
+    whose exponent does not fit the exponent type (outside the property's quantifier)"""
     emin, emax = -(1 << (E - 1)), (1 << (E - 1)) - 1
+    (S1, e1), (S2, e2) = x, y
+    for (S, e) in (x, y):
+        if S != 0 and not emin <= e <= emax:
+            return 'domain'
     if op in ('add', 'sub') or op in CMPS:
-        (S1, e1), (S2, e2) = x, y
-        if not (emin <= e1 <= emax and emin <= e2 <= emax):
-            return 'add operand-exponent-out-of-range'
+        if (S1 == 0 and not emin <= e1 <= emax) or (S2 == 0 and not emin <= e2 <= emax):
+            return 'add zero-operand-exponent-out-of-range'
         if (S1 == 0 and S2 != 0 and e1 > e2) or (S2 == 0 and S1 != 0 and e2 > e1):
             return 'add zero-operand-larger-exponent'
     return None
@@ -372,8 +376,8 @@ class Checker:
                 n, d = A.numerator, A.denominator
                 q = -(d.bit_length() - 1)
                 if ctor_safe(a):
-                    self.exprs.append('flt_input %s %s %s' % (F, zlit(n), zlit(q)))
-                    self.meta.append(('one', job, r, list(z)))
+                    self.exprs.append('[flt_input %s %s %s]' % (F, zlit(n), zlit(q)))
+                    self.meta.append(('set', job, r, list(z)))
                 else:
                     self.ctx.extra['ctor_log_inexact_inputs'] = self.ctx.extra.get('ctor_log_inexact_inputs', 0) + 1
                 continue
@@ -387,6 +391,9 @@ class Checker:
             y = tuple(r['y'])
             vy = val(y, f)
             cls = classify(op, x, y, self.E, f)
+            if cls == 'domain':
+                self.ctx.extra['operand_exponent_out_of_domain_skipped'] = self.ctx.extra.get('operand_exponent_out_of_domain_skipped', 0) + 1
+                continue
             ex = exact(op, vx, vy)
             det = {'job': repr(job), 'rec': r, 'vx': str(vx), 'vy': str(vy), 'got': str(vz), 'exact': str(ex)}
             if op in CMPS:
@@ -502,8 +509,8 @@ def run(ctx):
     plan = []   # (m, t, no_prss, s, E, jobs-params)
     for (s, E) in types:
         big = s > 11
-        plan.append((1, 0, False, s, E, dict(npairs=ctx.n(110, 500) if not big else ctx.n(80, 350), nops=None,
-                                             nio=ctx.n(40, 150), nchain=ctx.n(24, 80), nrop=ctx.n(10, 30))))
+        plan.append((1, 0, False, s, E, dict(npairs=ctx.n(60, 500) if not big else ctx.n(36, 350), nops=None,
+                                             nio=ctx.n(30, 150), nchain=ctx.n(20, 80), nrop=ctx.n(8, 30))))
     plan.append((1, 0, False, 53, 11, dict(npairs=ctx.n(6, 30), nops=4, nio=6, nchain=2, nrop=2)))
     for (m, t, np_) in [(3, 1, False), (3, 1, True), (2, 0, False)]:
         for (s, E) in [(11, 5), (24, 8), (5, 4)]:
@@ -583,7 +590,21 @@ def run(ctx):
     meta = [(ck, mt) for ck in checkers for mt in ck.meta]
     ctx.log('evaluating %d model expressions in Coq' % len(exprs))
     if ok:
-        res = ctx.coq_eval(['MPyC.Flt'], exprs, chunk=400)
+        # group expressions of equal result type (list flt / list bool) into one Eval each
+        groups = {}
+        for i, (e, (ck, mt)) in enumerate(zip(exprs, meta)):
+            groups.setdefault(isinstance(mt[3], bool), []).append(i)
+        gexprs, gidx = [], []
+        for _, idx in sorted(groups.items()):
+            for j in range(0, len(idx), 25):
+                part = idx[j:j + 25]
+                gexprs.append('[' + '; '.join(exprs[i] for i in part) + ']')
+                gidx.append(part)
+        gres = ctx.coq_eval(['MPyC.Flt'], gexprs, chunk=12)
+        res = [None] * len(exprs)
+        for r, part in zip(gres, gidx):
+            for k, i in enumerate(part):
+                res[i] = r if (isinstance(r, tuple) and r and r[0] == 'ERROR') else r[k]
         mism = 0
         for r, (ck, (mode, job, rec, got)) in zip(res, meta):
             if isinstance(r, tuple) and r and r[0] == 'ERROR':
@@ -591,7 +612,7 @@ def run(ctx):
                 ctx.broken.append({'kind': 'correspondence', 'what': 'coq evaluation failed', 'detail': r[1]})
                 continue
             r = to_py(r)
-            good = (r == got) if mode == 'one' else (got in r)
+            good = got in r
             if not good:
                 mism += 1
                 if len(ctx.broken) < 50:
